@@ -193,6 +193,21 @@ def unit(u) -> Stats:
                     attempt(f"fail({i},{errno.errorcode[e]}) at {op[0]}", lambda d, i=i, e=e: crashfs.Controller("fail", i, err=e, root=d))
                     if st.nviol >= 3:
                         return st
+        elif part == "fail+kill":
+            # fault sequences of length 2: an I/O error the program survives, followed by process death at any later operation
+            # (explores error-handling / fallback paths the single faults never reach)
+            for i, op in enumerate(ops):
+                d0 = os.path.join(base, f"p{i}")
+                shutil.copytree(oldroot, d0)
+                c0 = crashfs.Controller("fail", i, err=errno.ENOSPC, root=d0)
+                run_save(d0, new_kind, c0)
+                n_after = len(c0.ops)
+                shutil.rmtree(d0, ignore_errors=True)
+                for j in range(i + 1, n_after + 1):
+                    attempt(f"fail({i},ENOSPC) at {op[0]} then kill({j})",
+                            lambda d, i=i, j=j: crashfs.Controller("fail", i, err=errno.ENOSPC, root=d, then_kill_at=j))
+                    if st.nviol >= 3:
+                        return st
         elif part == "interrupt":
             probe = LineInterrupter(-1)
             d = os.path.join(base, "probe")
@@ -223,7 +238,7 @@ def run(run: Run) -> None:
     us = []
     for n_prev in (0, 1, 3):
         for new_kind in ("neg2x3", "big3k", "big40k"):
-            for part in ("kill", "tear", "fail", "interrupt"):
+            for part in ("kill", "tear", "fail", "fail+kill", "interrupt"):
                 if quick and new_kind == "big40k" and (part == "interrupt" or (part == "tear" and n_prev != 1)):
                     continue
                 shards = 6 if (part in ("tear", "interrupt") and new_kind != "neg2x3") else 2 if part in ("tear", "interrupt") else 1
@@ -231,7 +246,7 @@ def run(run: Run) -> None:
                     us.append((n_prev, new_kind, part, 250 if quick else 3000, (k, shards)))
     run.rule = ("file histories with 0 / 1 / 3 earlier runs x new result of ~200 B / ~3 KiB / ~40 KiB x { kill before EVERY OS-level operation (and after the "
                 "last), EVERY byte offset of every write torn (payloads <= 2 KiB; first/last 64 and every 97th offset above), ENOSPC and EIO injected at EVERY "
-                "operation, KeyboardInterrupt at every traced Python line of the save } each followed by a fault-free recovery save; oracle: data.json is "
+                "operation, fault sequences (an injected ENOSPC the program survives, then death before any later operation), KeyboardInterrupt at every traced Python line of the save } each followed by a fault-free recovery save; oracle: data.json is "
                 "byte-identical to the old file or to the complete new file, parses, keeps every earlier run. states = distinct directory contents "
                 "observed; non-trivial = faults after which the directory differs from the old one")
     run.bounds = {"earlier_runs": [0, 1, 3], "result_sizes": ["~200B", "~3KiB", "~40KiB"], "units": len(us)}
@@ -244,7 +259,8 @@ def run(run: Run) -> None:
 
 def replay(doc: dict):
     n_prev, new_kind, fault = doc["n_prev"], doc["new_kind"], doc.get("fault", "")
-    part = "kill" if fault.startswith("kill") else "tear" if fault.startswith("tear") else "fail" if fault.startswith("fail") else "interrupt"
+    part = "kill" if fault.startswith("kill") else "tear" if fault.startswith("tear") else "fail+kill" if "then kill" in fault else \
+        "fail" if fault.startswith("fail") else "interrupt"
     st = unit((n_prev, new_kind, part, 400))
     msgs = [v["message"] for v in st.violations]
     return bool(msgs), "; ".join(msgs[:3]) if msgs else f"all {part} faults leave either the old or the complete new file"
